@@ -296,7 +296,7 @@ func concRounds(req concReq) int {
 // ---------------------------------------------------------------------------------------------
 // mix
 
-var mixOps = []string{"tokenize", "parse", "parse_ctx", "parse_hold", "recovery", "format", "extract", "scan", "lint", "suggest", "span", "metrics", "config"}
+var mixOps = []string{"tokenize", "parse", "parse_ctx", "parse_hold", "recovery", "format", "extract", "scan", "lint", "suggest", "span", "span_zero", "metrics", "config"}
 
 // per-goroutine memory of the "metrics" operation (element g is only touched by goroutine g)
 var lastSeenOps, lastSeenBytes []int64
@@ -466,6 +466,17 @@ func runOp(op string, sql string, gid int) (res string) {
 		sp := models.Span{Start: models.Location{Line: gid + 1, Column: len(sql)}, End: models.Location{Line: gid + 2, Column: 1}}
 		ast.SetSpan(node, sp)
 		if ast.GetSpan(node) != sp {
+			return "span lost"
+		}
+		return "span ok"
+	case "span_zero":
+		// the zero values of the arguments: the empty span (a path of its own in an implementation that treats
+		// "no span" specially); afterwards the node has the empty span and another node can still be set and read
+		node, other := &ast.SelectStatement{}, &ast.SelectStatement{}
+		ast.SetSpan(node, models.Span{})
+		sp := models.Span{Start: models.Location{Line: gid + 1, Column: len(sql) + 1}, End: models.Location{Line: gid + 3, Column: 1}}
+		ast.SetSpan(other, sp)
+		if ast.GetSpan(node) != (models.Span{}) || ast.GetSpan(other) != sp {
 			return "span lost"
 		}
 		return "span ok"
